@@ -90,6 +90,11 @@ func (p *Proposal) ValidateBasic() error {
 		return fmt.Errorf("expected a complete, non-empty BlockID, got: %v", p.POLBlockID)
 	}
 
+	// The receiver allocates per part before it has any of them: no valid block has more parts.
+	if p.POLBlockID.PartsHeader.Total > MaxBlockPartsCount {
+		return fmt.Errorf("too many block parts: %d, max: %d", p.POLBlockID.PartsHeader.Total, MaxBlockPartsCount)
+	}
+
 	// NOTE: Timestamp validation is subtle and handled elsewhere.
 
 	if len(p.Signature) == 0 {
